@@ -397,7 +397,17 @@ def decorate(rng, scs):
 
 
 def scenarios(pid, tier, rng):
-    return decorate(rng, _scenarios(pid, tier, rng))
+    scs = decorate(rng, _scenarios(pid, tier, rng))
+    if pid in ("C04", "C05", "C06"):
+        # "equal the definitions computed from the raw candles": the candles the readings are computed on
+        # must be the candles that were fed -- a reading that follows its formula over candles that are
+        # not the input (a field lost or changed on the way in) is not the definition's value
+        for sc in scs:
+            cp = dict(sc.get("clause_props", {}))
+            cp.setdefault("stage", [pid])
+            cp.setdefault("def", [pid])
+            sc["clause_props"] = cp
+    return scs
 
 
 def _scenarios(pid, tier, rng):
@@ -972,7 +982,8 @@ def fam_hexital(rng, pid, count, twins=("standalone",)):
         tfs = [c.timeframe for c in cfgs] + [base_tf]
         secs = sorted(tf_seconds(x) for x in tfs if x)
         biggest = secs[-1] if secs else 60
-        life = timedelta(seconds=biggest * rng.choice([12, 20])) if rng.random() < 0.15 else None
+        # (a window of 12 / 20 of the coarsest buckets, or a lifespan of zero: only the newest candle is kept)
+        life = timedelta(seconds=biggest * rng.choice([12, 20, 0])) if rng.random() < 0.2 else None
         if pid != "C08":
             # batch = incremental is not claimed under a lifespan (C15 owns it), and the two open C08
             # findings (K01, K02) are kept inside the C08 check
